@@ -114,6 +114,56 @@ def gen_script(rng, n_actions, hook):
     return out
 
 
+# ---------- harness binaries and nets ----------
+NETS = [("random", 1), ("material", 2), ("extreme", 3), ("sweep", 4)]
+VSRC = ("lib/texellib/nn/nneval.cpp", "lib/texellib/nn/nntypes.cpp")   # the only units that see the SIMD macros
+
+
+def hcmd(e, *args):
+    """command line of a harness binary e = (exe, net file or None)"""
+    return [e[0]] + list(args) + (["--net", e[1]] if e[1] else [])
+
+
+def have_hook():
+    return "nnVerifOpHook" in open(os.path.join(REPO, "lib/texellib/nn/nneval.hpp")).read()
+
+
+def build_exe(extra_flags=()):
+    """ONE binary per build variant (zero net embedded); the other nets are loaded with --net, which
+    re-runs NetData::load (and with it this variant's prepareMatMul) on the process-wide NetData"""
+    return cbuild.build_harness("nn_harness", netfile=cbuild.make_net("zero", 1), priv_inc=True,
+                                defines=("C07_HAVE_H4",) if have_hook() else (),
+                                extra_flags=tuple(extra_flags), extra_srcs=VSRC if extra_flags else ())
+
+
+def net_file(exe, kind, seed):
+    """net files: kinds of harness/mknet.cpp through cbuild.make_net; kind `sweep` (first-layer weights
+    of every magnitude up to the S16 limits, so that accumulators hit every clamp class and wrap)
+    is written by nn_harness itself"""
+    if kind != "sweep":
+        return cbuild.make_net(kind, seed)
+    d = os.path.join(VERIF, ".cache", "c07")
+    os.makedirs(d, exist_ok=True)
+    h = hashlib.sha1(open(os.path.join(VERIF, "harness", "nn_harness.cpp"), "rb").read()).hexdigest()[:10]
+    f = os.path.join(d, "sweep-%d-%s.compr" % (seed, h))
+    if not os.path.exists(f):
+        sh([exe, "mknet", "sweep", str(seed), f + ".tmp%d" % os.getpid()], timeout=300, check=True)
+        os.replace(f + ".tmp%d" % os.getpid(), f)
+    return f
+
+
+def simd_variants():
+    flags = open("/proc/cpuinfo").read()
+    variants = []
+    if " ssse3" in flags:
+        variants.append(("ssse3", ["-DUSE_SSSE3", "-mssse3"]))
+    if " avx2" in flags:
+        variants.append(("avx2", ["-DUSE_SSSE3", "-DUSE_AVX2", "-mssse3", "-mavx2"]))
+    if " avx512f" in flags and " avx512bw" in flags and " avx512_vnni" in flags:
+        variants.append(("avx512", ["-DUSE_SSSE3", "-DUSE_AVX2", "-DUSE_AVX512", "-mssse3", "-mavx2", "-mavx512f", "-mavx512bw", "-mavx512vnni"]))
+    return variants
+
+
 # ---------- running ----------
 def canon_state(line, sort_lists):
     """R-line with the toAdd/toSub lists sorted (derived op order may differ from the real one)."""
@@ -142,7 +192,7 @@ def split_hist(lines):
 def run_chunk(exe, ml, wfile, wdims, scripts, derived, timeout=900):
     """returns (per-history dicts, error string)"""
     stream = "\n".join("\n".join(s) for s in scripts) + "\n"
-    args = [exe, "hist"] + (["derived"] if derived else [])
+    args = hcmd(exe, "hist", *(["derived"] if derived else []))
     rc, so, se = sh(args, input=stream, timeout=timeout)
     if rc != 0:
         return None, "harness rc=%d: %s" % (rc, se[-800:])
@@ -229,7 +279,10 @@ def measure(ctx, h):
         prev_depth = depth
     for t in h["trace"]:
         f = t.split()
-        if f[1] == "S" and len(f) > 4:
+        if f[1] == "C" and len(f) > 11:
+            for name, x in zip(("l1_neg", "l1_0_127", "l1_128_255", "l1_gt255"), f[2:6]):
+                ctx.count("eval_lanes_%s" % name, int(x))
+        elif f[1] == "S" and len(f) > 4:
             ctx.count("real_searches")
             ctx.count("real_search_nodes", int(f[2]))
             ctx.count("real_search_evaluations_vs_fresh", int(f[3]))
@@ -293,7 +346,7 @@ def cache_script(rng, n):
 
 
 def run_cache(exe, ml, script):
-    rc, so, se = sh([exe, "cache"], input="\n".join(script) + "\n", timeout=300)
+    rc, so, se = sh(hcmd(exe, "cache"), input="\n".join(script) + "\n", timeout=300)
     if rc != 0:
         return None, "cache harness rc=%d %s" % (rc, se[-500:])
     lines = [l for l in so.split("\n") if l]
@@ -325,7 +378,9 @@ def run(ctx):
                 "stack), null-move edits as search.cpp, bursts of >4 board edits, snapshot/assign-back, "
                 "copy-assign, serialize/deSerialize, reconnect, evaluations; state of both perspectives compared "
                 "with the extracted model after every operation; non-trivial = every history (distinct by its "
-                "op stream); 3 synthetic nets")
+                "op stream); 4 synthetic nets (random small, material-like, extreme, sweep = every first-layer "
+                "magnitude up to the S16 limits); SIMD variants additionally compared on unit-level kernel calls "
+                "with boundary vectors")
     ctx.trusted_base = ["Coq 8.16.1 kernel (coqc, vm_compute)",
                         "tx/c07_gen.py (getIndex/ptValue/constants/cache layout rendered from the C++ text)",
                         "extraction (ExtrOcamlBasic only) + OCaml 4.13 + drivers/nn_driver.ml",
@@ -365,19 +420,19 @@ def run(ctx):
     ctx.log("proof stage: %s" % ("BROKEN" if proof_broken else "ok"))
 
     # (3) build
-    have_hook = "nnVerifOpHook" in open(os.path.join(REPO, "lib/texellib/nn/nneval.hpp")).read()
-    defines = ("C07_HAVE_H4",) if have_hook else ()
+    have_hook = globals()["have_hook"]()
     ctx.notes["op_stream_source"] = ("H4 hook in nneval.cpp (exact order) + derived stream cross-check" if have_hook else
                                      "derived by the harness from its own knowledge of what Position::makeMove/"
                                      "unMakeMove/setPiece/operator=/deSerialize notify (H4 hook not present in this "
                                      "tree); pending-queue contents compared as multisets")
-    nets = [("random", 1), ("material", 2), ("extreme", 3)]
-    netfiles = {k: cbuild.make_net(k, s) for k, s in nets}
-    netfiles["zero"] = cbuild.make_net("zero", 1)
-    with ThreadPoolExecutor(max_workers=4) as ex:
-        exes = dict(zip([k for k, _ in nets] + ["zero"],
-                        ex.map(lambda k: cbuild.build_harness("nn_harness", netfile=netfiles[k], defines=defines),
-                               [k for k, _ in nets] + ["zero"])))
+    nets = NETS
+    variants = simd_variants()
+    with ThreadPoolExecutor(max_workers=4) as ex:      # generic build + one build per SIMD variant
+        built = list(ex.map(build_exe, [()] + [v[1] for v in variants]))
+    gexe, vexes = built[0], built[1:]
+    netfiles = {k: net_file(gexe, k, s) for k, s in nets}
+    exes = {k: (gexe, netfiles[k]) for k, _ in nets}
+    exes["zero"] = (gexe, None)
     ml = None
     if not tie_broken:
         try:
@@ -390,12 +445,12 @@ def run(ctx):
     os.makedirs(wdir, exist_ok=True)
     wfiles = {}
     for k, _ in nets:
-        wf = os.path.join(wdir, "w-%s-%s.bin" % (k, os.path.basename(os.path.dirname(exes[k]))[-12:]))
-        rc, so, se = sh([exes[k], "dumpw", wf], timeout=120, check=True)
+        wf = os.path.join(wdir, "w-%s-%s.bin" % (k, hashlib.sha1((gexe + netfiles[k]).encode()).hexdigest()[:12]))
+        rc, so, se = sh(hcmd(exes[k], "dumpw", wf), timeout=120, check=True)
         wfiles[k] = (wf, tuple(int(x) for x in so.split()))
     for f in os.listdir(wdir):              # drop weight dumps of older builds
         p = os.path.join(wdir, f)
-        if p not in [w for w, _ in wfiles.values()]:
+        if f.startswith("w-") and p not in [w for w, _ in wfiles.values()]:
             try:
                 os.remove(p)
             except OSError:
@@ -440,7 +495,7 @@ def run(ctx):
         # no model: still run the implementation against the specification
         def only_impl(j):
             stream = "\n".join("\n".join(s) for s in j[2]) + "\n"
-            rc, so, se = sh([exes[j[0]], "hist", "derived"], input=stream, timeout=900)
+            rc, so, se = sh(hcmd(exes[j[0]], "hist", "derived"), input=stream, timeout=900)
             if rc != 0:
                 return None, "harness rc=%d %s" % (rc, se[-500:])
             hs = split_hist(so.split("\n"))
@@ -476,46 +531,126 @@ def run(ctx):
     if errors:
         raise RuntimeError("C07 harness/driver failure: %s" % errors[0][1])
 
-    # (4b) SIMD build variants: identical outputs on identical inputs (differential support only)
-    flags = open("/proc/cpuinfo").read()
-    variants = []
-    if " ssse3" in flags:
-        variants.append(("ssse3", ["-DUSE_SSSE3", "-mssse3"]))
-    if " avx2" in flags:
-        variants.append(("avx2", ["-DUSE_SSSE3", "-DUSE_AVX2", "-mssse3", "-mavx2"]))
-    if " avx512f" in flags and " avx512bw" in flags and " avx512_vnni" in flags:
-        variants.append(("avx512", ["-DUSE_SSSE3", "-DUSE_AVX2", "-DUSE_AVX512", "-mssse3", "-mavx2", "-mavx512f", "-mavx512bw", "-mavx512vnni"]))
-    vsrc = ("lib/texellib/nn/nneval.cpp", "lib/texellib/nn/nntypes.cpp")   # the only units that see the SIMD macros
-    var_net = "random"
-    def build_var(v):
-        return cbuild.build_harness("nn_harness", netfile=netfiles[var_net], defines=defines,
-                                    extra_flags=tuple(v[1]), extra_srcs=vsrc)
-    with ThreadPoolExecutor(max_workers=4) as ex:
-        vexes = list(ex.map(build_var, variants))
-    vscripts = scripts[:ctx.scale(48, 1200)]
-    vstream = "\n".join("\n".join(s) for s in vscripts) + "\n"
-    def run_var(exe):
-        rc, so, se = sh([exe, "hist", "derived"], input=vstream, timeout=900)
-        return rc, [l for l in so.split("\n") if l.startswith(("R ", "T "))], se
-    with ThreadPoolExecutor(max_workers=4) as ex:
-        vouts = list(ex.map(run_var, [exes[var_net]] + vexes))
-    base = vouts[0][1]
+    # (4b) SIMD build variants (differential support only: the kernels are not proved).
+    #  (i) unit level: scaleClipPack / addSubWeights / matMul called directly on boundary + random vectors in
+    #      every build, against a scalar reference inside the harness, against each other, and (first cases)
+    #      against the extracted Coq model / specification of scaleClipPack and addSubWeights;
+    #  (ii) engine level: the same histories on every net, all state/eval/evalPos lines identical.
     variant_fail = None
-    for (vn, _), (rc, lines, se) in zip(variants, vouts[1:]):
-        ctx.count("variant_%s_lines_compared" % vn, len(lines))
-        if rc != 0 or lines != base:
-            idx = next((i for i, (a, b) in enumerate(zip(base, lines)) if a != b), min(len(base), len(lines)))
-            variant_fail = dict(variant=vn, rc=rc, line=idx, generic=base[idx] if idx < len(base) else None,
-                                variant_line=lines[idx] if idx < len(lines) else None, stderr=se[-300:])
-            break
-    ctx.notes["simd_variants"] = {"compared": [v for v, _ in variants], "how": "nneval.cpp+nntypes.cpp (the only translation units "
-                                  "that include vectorop.hpp) recompiled with the variant's flags and linked before the generic "
-                                  "library; all R/T lines (accumulator hashes, clipped hashes, eval and evalPos values) must be "
-                                  "identical to the generic build; differential support only, the kernels are not proved"}
+    kseed = rng.randrange(1, 2 ** 31)
+    kn = ctx.scale(400, 20000)
+    kwf = os.path.join(wdir, "kern-rows-%d.bin" % os.getpid())
+    def run_kern(exe):
+        return sh([exe, "kern", str(kseed), str(kn)] + ([kwf] if exe == gexe else []), timeout=900)
+    with ThreadPoolExecutor(max_workers=4) as ex:
+        kouts = list(ex.map(run_kern, [gexe] + vexes))
+    kbase = None
+    for (vn, exe), (rc, so, se) in zip([("generic", gexe)] + [(v[0], e) for v, e in zip(variants, vexes)], kouts):
+        kl = [l for l in so.split("\n") if l.startswith("K ")]
+        bad = [l for l in so.split("\n") if l.startswith("KREFDIFF")]
+        ks = [l for l in so.split("\n") if l.startswith("KS ")]
+        ctx.count("kernel_results_compared_%s" % vn, len(kl))
+        if vn == "generic":
+            kbase = kl
+            if ks:
+                t = ks[0].split()[1:]
+                ctx.notes["kernel_unit_saturation_classes"] = {t[i]: int(t[i + 1]) for i in range(0, len(t) - 1, 2)}
+                ctx.notes["kernel_unit_saturation_classes"]["meaning"] = (
+                    "scp_* = inputs of scaleClipPack by floor(l1Out/4): <0, 0..127, 128..255, >255, lanes equal to +-S16 limit, "
+                    "lanes exactly at a clamp edge; asw_* = addSubWeights lanes whose exact sum stayed in / left the S16 range "
+                    "(wrap-around); mmK_* = matMul results by (result>>6): <0, =0, 1..126, =127, >127 (the clamp of Layer::forward)")
+        if (rc != 0 or bad or kl != kbase) and not variant_fail:
+            idx = next((i for i, (a, b) in enumerate(zip(kbase, kl)) if a != b), None)
+            variant_fail = dict(level="kernel", variant=vn, rc=rc, kernel_seed=kseed, cases=kn,
+                                replay_cmd="nn_harness kern %d %d   (built with %s)" % (kseed, kn, " ".join(dict(variants).get(vn, ["generic flags"]))),
+                                differs_from_scalar_reference=bad[:5],
+                                differs_from_generic=dict(generic=kbase[idx], variant=kl[idx]) if idx is not None else None,
+                                stderr=se[-300:])
+    if ml and kbase:         # the proved reference: extracted model of the generic loops / the specification
+        rc, so, se = kouts[0]
+        ki = [l for l in so.split("\n") if l.startswith("KI ")]
+        mops = ["W %s 64 %d" % (kwf, wfiles[nets[0][0]][1][1])]
+        want = []
+        for l in ki:
+            f = l.split(" ", 3)
+            mops.append(("KC " if f[1] == "scp" else "KA ") + f[3])
+            want.append("K %s %s" % (f[1], [x for x in kbase if x.startswith("K %s %s " % (f[1], f[2]))][0].split()[3]))
+        rc, so2, se2 = sh([ml], input="\n".join(mops) + "\n", timeout=300)
+        got = [l for l in so2.split("\n") if l.startswith("K ")]
+        ctx.count("kernel_results_compared_with_coq_model", len(got))
+        if got != want and not variant_fail:
+            idx = next((i for i, (a, b) in enumerate(zip(want, got)) if a != b), min(len(want), len(got)))
+            variant_fail = dict(level="kernel-vs-coq-model", variant="generic", kernel_seed=kseed, case=idx,
+                                harness=want[idx] if idx < len(want) else None, model=got[idx] if idx < len(got) else None,
+                                input=ki[idx][:400] if idx < len(ki) else None)
+    try:
+        os.remove(kwf)
+    except OSError:
+        pass
+
+    engine_fail = None
+    n_vs = ctx.scale(16, 400)
+    vnets = [("extreme", 3), ("sweep", 4), ("random", 1), ("material", 2)]
+    vjobs = []
+    for ni, (k, sd) in enumerate(vnets):
+        sc = scripts[ni * n_vs:(ni + 1) * n_vs] or scripts[:n_vs]
+        for vi in range(len(variants) + 1):
+            vjobs.append((k, sd, vi, sc))
+    def run_var(j):
+        k, sd, vi, sc = j
+        exe = gexe if vi == 0 else vexes[vi - 1]
+        rc, so, se = sh(hcmd((exe, netfiles[k]), "hist", "derived"), input="\n".join("\n".join(x) for x in sc) + "\n", timeout=900)
+        return rc, split_hist(so.split("\n")), se
+    with ThreadPoolExecutor(max_workers=NCPU) as ex:
+        vres = dict(zip([(j[0], j[2]) for j in vjobs], ex.map(run_var, vjobs)))
+    sat = {}
+    for (k, sd, vi, sc) in vjobs:
+        if vi != 0:
+            continue
+        rc0, h0, se0 = vres[(k, 0)]
+        for h in h0:
+            for l in h:
+                if l.startswith("T C "):
+                    v = [int(x) for x in l.split()[2:]]
+                    for name, x in zip(("l1_neg", "l1_0_127", "l1_128_255", "l1_gt255", "l2_neg", "l2_0_127", "l2_gt127",
+                                        "l3_neg", "l3_0_127", "l3_gt127"), v):
+                        sat["%s_%s" % (k, name)] = sat.get("%s_%s" % (k, name), 0) + x
+        for vi2, (vn, _) in enumerate(variants, 1):
+            rc, hv, se = vres[(k, vi2)]
+            keep = lambda h: [l for l in h if l.startswith(("R ", "T "))]
+            ctx.count("variant_%s_lines_compared" % vn, sum(len(keep(h)) for h in hv))
+            if engine_fail:
+                continue
+            if rc != 0 or len(hv) != len(h0):
+                engine_fail = dict(level="engine", variant=vn, net="%s-%d" % (k, sd), rc=rc, stderr=se[-300:])
+                continue
+            for si, (a, b) in enumerate(zip(h0, hv)):
+                a, b = keep(a), keep(b)
+                if a != b:
+                    idx = next((i for i, (x, y) in enumerate(zip(a, b)) if x != y), min(len(a), len(b)))
+                    # the evaluation this state line belongs to: next T E / T Q line
+                    nxt = next((i for i in range(idx, len(a)) if a[i].startswith(("T E", "T Q"))), None)
+                    cut = sum(1 for l in a[:(nxt if nxt is not None else idx) + 1] if l.startswith("T ") and not l.startswith("T C"))
+                    engine_fail = dict(level="engine", variant=vn, net="%s-%d" % (k, sd), net_kind=k, net_seed=sd,
+                                        script=sc[si][:cut + 1],
+                                        first_differing_line=dict(generic=a[idx] if idx < len(a) else None, variant=b[idx] if idx < len(b) else None),
+                                        evaluation=dict(generic=a[nxt], variant=b[nxt] if nxt < len(b) else None) if nxt is not None else None,
+                                        line_format="R <depth> | <white ksq [toAdd] [toSub] l1Out-hash> | <black ...> | <l1OutClipped-hash>;  "
+                                                    "T E <eval> <fresh eval> same|FRESHDIFF <FEN>;  T Q <evalPos> <fresh> <swapped> <mirrored> ... <FEN>")
+                    break
+    ctx.notes["variant_engine_saturation_classes"] = dict(sat, meaning=(
+        "lanes/units seen at the evaluations of the variant comparison, per net: first-layer accumulators by floor(l1Out/4) "
+        "(<0, 0..127, 128..255, >255), layer-2/3 pre-activations by (x>>6) (<0, 0..127, >127)"))
+    ctx.notes["simd_variants"] = {"compared": [v for v, _ in variants], "how": "one binary per variant: harness + nneval.cpp + nntypes.cpp "
+                                  "(the only translation units that include vectorop.hpp) compiled with the variant's flags and linked "
+                                  "before the generic library; nets extreme, sweep, random, material; all R/T lines (accumulator hashes, "
+                                  "clipped hashes, eval and evalPos values) must equal the generic build's; plus unit-level kernel calls; "
+                                  "differential support only, the kernels are not proved (reference for scaleClipPack and addSubWeights: "
+                                  "the Coq specification/model, C07_scaleClipPack_spec)"}
 
     # (4c) evaluation cache: F3 witness replay on the real Evaluate + cache-logic correspondence
     witness = ["T", "P " + FENS[0], "C 50", "V", "C 0", "V"]
-    rc, so, se = sh([exes["zero"], "cache"], input="\n".join(witness) + "\n", timeout=120, check=True)
+    rc, so, se = sh(hcmd(exes["zero"], "cache"), input="\n".join(witness) + "\n", timeout=120, check=True)
     wl = [l.split() for l in so.split("\n") if l.startswith("V ")]
     f3_real = len(wl) == 2 and wl[1][2] != wl[1][3]
     ctx.notes["F3_witness_on_real_code"] = {"script": witness, "net": "zero", "output": [" ".join(x) for x in wl],
@@ -558,14 +693,27 @@ def run(ctx):
         ctx.violation("evalPos returned a cached value that differs from the un-cached one and is not explained by a "
                       "change of contempt", {"cache": cache_other},
                       key="cache:" + hashlib.sha1("\n".join(cache_other["script"]).encode()).hexdigest()[:16])
-    if variant_fail:
-        ctx.violation("SIMD build variant %s differs from the generic build" % variant_fail["variant"],
-                      {"variant": variant_fail, "scripts": vscripts[:3]},
-                      key="variant:%s:%s" % (variant_fail["variant"], variant_fail.get("generic")))
+    for vf in (variant_fail, engine_fail):
+        if not vf:
+            continue
+        if vf["level"] == "engine" and vf.get("evaluation"):
+            what = ("SIMD build variant %s evaluates differently from the generic build: net %s, %s  |generic| %s  |%s| %s"
+                    % (vf["variant"], vf["net"], "history " + " ".join(vf["script"][:1]) + " ...", vf["evaluation"]["generic"],
+                       vf["variant"], vf["evaluation"]["variant"]))
+            fen = vf["evaluation"]["generic"].split(" ", 5)[-1] if vf["evaluation"]["generic"].startswith("T E") else vf["evaluation"]["generic"].split(" ", 8)[-1]
+            key = "variant:%s:%s:%s" % (vf["variant"], vf["net"], fen.replace(" ", "_"))
+        elif vf["level"] == "kernel":
+            d = (vf["differs_from_scalar_reference"] or [str(vf["differs_from_generic"])])[0]
+            what = "SIMD build variant %s: kernel result differs (unit level, seed %d): %s" % (vf["variant"], vf["kernel_seed"], d)
+            key = "variant-kernel:%s:%s" % (vf["variant"], "_".join(d.split()[:2]))
+        else:
+            what = "SIMD build variant %s differs from the generic build / reference (%s)" % (vf["variant"], vf["level"])
+            key = "variant:%s:%s" % (vf["variant"], vf["level"])
+        ctx.violation(what, {"variant": vf}, key=key)
     corr_broken = bool(disagreements) or bool(cache_dis) or inconsistent > 0
 
     def impl_trace(k, script):
-        rc, so, se = sh([exes[k], "hist", "derived"], input="\n".join(script) + "\n", timeout=300)
+        rc, so, se = sh(hcmd(exes[k], "hist", "derived"), input="\n".join(script) + "\n", timeout=300)
         if rc != 0:
             return dict(trace=["T E 0 0 FRESHDIFF harness-crash rc=%d %s" % (rc, se[-200:].replace("\n", " "))])
         return dict(trace=[l for l in so.split("\n") if l.startswith("T ")])
@@ -659,22 +807,31 @@ def run(ctx):
 
 def replay(ctx, body):
     r = body.get("replay", {})
+    gexe = build_exe()
     if "cache_script" in r:
-        exe = cbuild.build_harness("nn_harness", netfile=cbuild.make_net(r.get("net", "zero"), 1))
-        rc, so, se = sh([exe, "cache"], input="\n".join(r["cache_script"]) + "\n", timeout=120)
+        rc, so, se = sh([gexe, "cache"], input="\n".join(r["cache_script"]) + "\n", timeout=120)
         print("cache script:", r["cache_script"])
         print(so)
         print("(V lines: key, value returned by evalPos, value of a fresh evaluator at the same contempt)")
         return
-    fi = r.get("failing_input") or r.get("disagreement") or {}
+    vf = r.get("variant")
+    if vf and vf.get("level") == "kernel":
+        for vn, fl in [("generic", [])] + simd_variants():
+            rc, so, se = sh([build_exe(fl), "kern", str(vf["kernel_seed"]), str(vf["cases"])], timeout=600)
+            print(vn, [l for l in so.split("\n") if l.startswith(("KREFDIFF", "KS"))][:6])
+        return
+    fi = vf or r.get("failing_input") or r.get("disagreement") or {}
     script = fi.get("script") or r.get("script")
-    net = fi.get("net") or r.get("net") or "random"
-    seed = dict(random=1, material=2, extreme=3, zero=1).get(net, 1)
-    have_hook = "nnVerifOpHook" in open(os.path.join(REPO, "lib/texellib/nn/nneval.hpp")).read()
-    exe = cbuild.build_harness("nn_harness", netfile=cbuild.make_net(net, seed), defines=("C07_HAVE_H4",) if have_hook else ())
-    rc, so, se = sh([exe, "hist", "derived"], input="\n".join(script) + "\n", timeout=120)
+    net = fi.get("net_kind") or fi.get("net") or r.get("net") or "random"
+    seed = dict(NETS).get(net, 1)
+    builds = [("generic", [])] + ([v for v in simd_variants() if vf and v[0] == vf.get("variant")])
+    print("net: %s-%d" % (net, seed))
     print("script:", script)
-    for l in so.split("\n"):
-        if l.startswith("T "):
-            print(l)
+    for vn, fl in builds:
+        exe = build_exe(fl)
+        rc, so, se = sh(hcmd((exe, net_file(gexe, net, seed)), "hist", "derived"), input="\n".join(script) + "\n", timeout=120)
+        print("--- build %s" % vn)
+        for l in so.split("\n"):
+            if l.startswith("T ") and not l.startswith("T C"):
+                print(l)
     print("(T E <eval> <fresh evaluator's eval> same|FRESHDIFF <fen>;  T Q <evalPos> <fresh> <colour-swapped> <mirrored> ...)")
